@@ -138,6 +138,32 @@ fn gen_b(seed: u64, n: usize) -> (Vec<BCase>, Vec<WCase>) {
             w.push(t.current());
         }
     }
+    // enumerated edge table, read side: every leaf kind (cursor kinds become slices in digest mode) x a few wrappers x the
+    // operations that ask for more than there is - which of them panic, and what the buffer looks like right afterwards
+    for kind in 0..NKINDS {
+        for n in [0usize, 5, 11] {
+            let leaf = Spec::Leaf { kind, data: (0..n).map(|i| 0x11u8.wrapping_add(i as u8 * 3) | 1).collect(), pre: 2 };
+            let specs = [
+                leaf.clone(),
+                Spec::MutRef(Box::new(leaf.clone())),
+                Spec::Boxed(Box::new(leaf.clone())),
+                Spec::Take(Box::new(leaf.clone()), usize::MAX),
+                Spec::Take(Box::new(leaf.clone()), 3),
+                Spec::Chain(Box::new(leaf.clone()), Box::new(Spec::Leaf { kind: 0, data: vec![0x71, 0x73], pre: 0 })),
+            ];
+            for spec in specs {
+                // a = 5: remaining + 1, a = 11: usize::MAX (sel_n); ops: advance, copy_to_slice, try_copy_to_slice, copy_to_bytes
+                for code in [1u8, 3, 4, 5] {
+                    for a in [5u32, 11] {
+                        b.push(BCase { spec: spec.clone(), ops: vec![(code, a, 0)] });
+                    }
+                }
+                // a typed read that needs more bytes than there are, after consuming all but one
+                b.push(BCase { spec: spec.clone(), ops: vec![(1, 7, 0), (6, 7, 0)] });
+                b.push(BCase { spec: spec.clone(), ops: vec![(1, 7, 0), (7, 7, 0)] });
+            }
+        }
+    }
     // enumerated edge table (same in every run): writes that cannot fit, on every kind of target and through every wrapper -
     // the calls whose outcome (panic vs. wrapped arithmetic) depends on overflow checks
     use crate::bufmut::{WSpec, WKINDS};
